@@ -32,7 +32,7 @@ func init() {
 			{Name: "version control", Kind: "stub", Note: "SimVCS recording every call"},
 			{Name: "CA / signer / key manager", Kind: "real", Note: "memkm+memca behind counting decorators"},
 		},
-		Budget: core.StdBudget(1200, 100*time.Second, 100000, 25*time.Minute),
+		Budget: core.StdBudget(1200, 100*time.Second, 100000, 9*time.Minute),
 		Body:   runC15,
 	})
 }
